@@ -810,6 +810,13 @@ func cReasons(p *Program, r *Report, rule string) {
 		switch cs.Name {
 		case "Conn.writeError":
 			fns[cs.Fn] = true
+		case "Conn.writeClose":
+			// the inlined spelling of writeError: writeClose(code, err.Error())
+			if args := cs.Instr.Common().Args; len(args) == 3 {
+				if c, ok := args[2].(*ssa.Call); ok && c.Call.IsInvoke() && c.Call.Method.Name() == "Error" && fname != "Conn.writeError" {
+					fns[cs.Fn] = true
+				}
+			}
 		case "Conn.Close", "Conn.closeHandshake":
 			if fname != "Conn.Close" && fname != "Conn.closeHandshake" && fname != "netConn.Close" {
 				fns[cs.Fn] = true
@@ -825,15 +832,16 @@ func cReasons(p *Program, r *Report, rule string) {
 		p.forAllPaths(r, rule, fn, "library-initiated close reasons are bounded", Opts{Unroll: 1},
 			"a Close the library initiates on its own (protocol error, read limit, wrong message type, bad JSON, policy violation) carries a reason of at most 123 bytes by construction — a constant, or the text of an error with a constant format and numeric/boolean/bounded-error operands; a longer reason makes CloseError.bytes fail and no Close frame is sent at all",
 			func(pa *Path) (bool, string) {
+				for _, e := range pa.Calls("Conn.writeError") {
+					if ok, why := avBounded(pa, e.Args[2]); !ok {
+						return false, "writeError reason: " + why
+					}
+				}
 				for _, e := range pa.Events {
 					if e.Kind != "call" {
 						continue
 					}
 					switch e.Callee {
-					case "Conn.writeError":
-						if ok, why := avBounded(pa, e.Args[2]); !ok {
-							return false, "writeError reason: " + why
-						}
 					case "Conn.Close", "Conn.closeHandshake":
 						reason := e.Args[2]
 						if s, ok := avStr(reason); ok {
